@@ -138,7 +138,10 @@ class Path:
         if z3.is_false(cond):
             raise PathEnd()
         self.pc.append(cond)
-        self.solver.add(cond)
+        # quantified facts are kept for the obligations but not given to the (quantifier-free) feasibility solver:
+        # dropping them only over-approximates the set of feasible paths
+        if not _has_quantifier(cond):
+            self.solver.add(cond)
 
     def feasible(self, cond=None):
         r = self.solver.check() if cond is None else self.solver.check(cond)
@@ -161,8 +164,11 @@ class Path:
         if pos < len(self.prefix):
             d, wf = self.prefix[pos]
         else:
-            t_ok = self.feasible(c)
-            f_ok = self.feasible(z3.Not(c))
+            if _has_quantifier(c):
+                t_ok = f_ok = True
+            else:
+                t_ok = self.feasible(c)
+                f_ok = self.feasible(z3.Not(c))
             if t_ok and f_ok:
                 wf = True
                 k, D = self.ex.shard
@@ -182,7 +188,8 @@ class Path:
         self.decisions.append((d, wf))
         lit = c if d else z3.Not(c)
         self.pc.append(lit)
-        self.solver.add(lit)
+        if not _has_quantifier(lit):
+            self.solver.add(lit)
         return d
 
     def choose(self, u):
@@ -1920,6 +1927,14 @@ class StarArgs:
 
     def __init__(self, seq):
         self.seq = seq
+
+
+def _has_quantifier(e, _depth=0):
+    if z3.is_quantifier(e):
+        return True
+    if _depth > 40:
+        return False
+    return any(_has_quantifier(c, _depth + 1) for c in e.children())
 
 
 class _NotPure(Exception):
